@@ -779,13 +779,13 @@ def struct_str(c, objs):
     return "?"
 
 
-def struct_shape(c):
-    """class names and nesting of a condition (primitives as their doc)"""
+def struct_shape(c, docmap):
+    """class names and nesting of a condition (primitives as their doc id)"""
     from mystic import termination as T
     if isinstance(c, tuple):
         nm = "or" if isinstance(c, T.Or) else ("and" if isinstance(c, T.And) else "when")
-        return (nm,) + tuple(struct_shape(m) for m in c)
-    return c.__doc__
+        return (nm,) + tuple(struct_shape(m, docmap) for m in c)
+    return docmap.get(c.__doc__, c.__doc__)
 
 
 def exc_enum(exc):
@@ -962,20 +962,23 @@ def execute(case):
             obs["state_keys_ok"] = "raise:" + type(exc).__name__
             obs["skeys"] = "raise:" + type(exc).__name__
         # the whole tree rebuilt: type(c)(*members rebuilt), primitives from type + state
+        docs2 = dict(docs)      # a rebuilt primitive may write a set-valued mask in another order: same doc id
+
         def rebuild_tree(c):
             if isinstance(c, tuple):
                 return T.type(c)(*[rebuild_tree(m) for m in c])
-            return T.type(c)(**T.state(c)[c.__doc__])
+            r_ = T.type(c)(**T.state(c)[c.__doc__])
+            docs2.setdefault(r_.__doc__, docs[c.__doc__])
+            return r_
         clock.t = list(v["clock"])
         has_tl = any(specs[i][0] == "timelimits" for i in order)
         try:
             rt = rebuild_tree(cond)
             r2 = call(rt, solver)
             r2i = call(rt, solver, True)
-            docs2 = dict(docs)
             obs["tree_rb"] = {"b": ("err-" + r2[1]) if r2[0] == "err" else bool(r2[1]),
                               "info": ("err-" + r2i[1]) if r2i[0] == "err" else info_atoms(r2i[1], docs2),
-                              "built": struct_shape(rt) == struct_shape(cond), "skip": has_tl}
+                              "built": struct_shape(rt, docs2) == struct_shape(cond, docs2), "skip": has_tl}
         except Exception as exc:   # noqa
             obs["tree_rb"] = {"raise": type(exc).__name__, "skip": has_tl}
         # a second condition built from the same primitive objects: equality / hash / use as a dict key
@@ -1334,8 +1337,15 @@ def collapse_expected(spec, v):
     n = len(win[0])
     F = Fraction
 
-    def le(x):            # exact `x <= tol`
-        return True if tol == INF else (False if tol == -INF else x <= F(tol))
+    def le(x):            # exact `x <= tol`; the code's float differences are rounded: no verdict within 1e-12 of a tie
+        if tol == INF:
+            return True
+        if tol == -INF:
+            return False
+        t = F(tol)
+        if x != t and abs(x - t) <= F(1, 10 ** 12) * max(abs(x), abs(t)):
+            raise Skip("rounding")
+        return x <= t
     if k == "cat":
         tgt = spec[1]
         if m is not None and any(isinstance(e, (list, tuple)) for e in m["set"]):
@@ -1906,6 +1916,16 @@ RULE = ("cases: a synthetic solver view (energy history of length 0-12: monotone
         "tuple-key collisions.  compared bit-exactly with the Lean model: constructed object structure, each primitive's "
         "verdict / exception, condition(solver), condition(solver, True) as a set of docs, condition(solver,'self'), "
         "condition(solver,'not'), and the verdict of type(c)(**state(c)[doc]) for every primitive.  "
+        "deepening: + GradientNormTolerance with norm in {0, 1, 2, 3, 4, 7, 0.5, 1.5, 2.5, -1, -2, 100, 1e-3, inf, -inf, nan} on a "
+        "solver-supplied gradient or (gradient absent / [None] / [.., None]) approx_fprime of a recorded raw cost "
+        "(bit-exact when every power / sum is exact or correctly rounded, otherwise tolerances kept 2^-16 away: "
+        "counted as tol(toleranced-stream)); CollapseAt / CollapseAs on a synthetic step monitor (settled / drifting / "
+        "paired columns, ragged, shorter or longer than the energy history; targets None / scalar / vector / wrong length; "
+        "masks None / index sets / pair sets / bad elements / non-sets; scalar and list tolerances) incl. the reported "
+        "indices after ' at '; ragged populations and best/trial length mismatch; settings as numpy scalars; the keys of "
+        "state(condition) in order; auxiliary streams per case: approx_fprime points + gradient (direct and through "
+        "the condition), Lnorm value (exact / toleranced 1e-9 counted apart), cond == cond2 / hash / dict-key behaviour "
+        "against a re-classed / mutated second tree; 16 fixed state() round-trip probes.  "
         "non-trivial = a compound whose primitives are not all of one verdict, or a single primitive on a history of "
         "length >= 2")
 
@@ -1927,8 +1947,14 @@ def main(tier, seed):
           "hand-written model Model/Termination.lean tied to mystic/termination.py by this bit-exact differential run only",
           "int() of a float `generations` setting and repr/eval of the settings inside the doc string are Python's (the "
           "harness passes int(g); rebuilding through state()/type() is compared on verdicts)",
-          "Collapse* conditions (termination.py l.453-583) belong to C11 and are not modelled here",
-          "GradientNormTolerance: only norm=inf with a solver-supplied gradient (no approx_fprime)"]
+          "CollapseAt / CollapseAs conditions reuse the detectors of Model/Collapse.lean (C11) unchanged; CollapseWeight / "
+          "CollapsePosition / CollapseCost (termination.py l.454-502, 557-583) are not modelled here",
+          "GradientNormTolerance with a finite norm: numpy's array power takes SIMD / fast paths (square, sqrt, reciprocal, "
+          "identity are mirrored; any other exponent is libm pow in the model) - bit-exact comparison only where every "
+          "power is exactly representable, elsewhere tolerances are kept away from the norm; the scalar root s**(1./p) is "
+          "libm pow on both sides (0 mismatches / 200000 measured); detection of FloatingPointError (over / invalid) is "
+          "re-implemented in the driver (Drv/C10.lean raisesF), not proved",
+          "the raw cost of the synthetic solver is the harness's own quadratic family evaluated left to right"]
     assumptions = ["IEEE binary64 + - * and comparisons agree between Lean Float and CPython/numpy",
                    "numpy.add.reduce over at most 7 addends is sequential (measured); longer sums only in the exact dyadic regime",
                    "populations are rectangular; the trial population is non-empty",
